@@ -173,7 +173,7 @@ def validate_all(ctx, results):
         b, s = bs
         return b, s, ctx.validate(b, module='CoerceTrace', cfg='CoerceTrace', heap='3g')
 
-    with cf.ThreadPoolExecutor(max_workers=min(4, len(results))) as ex:
+    with cf.ThreadPoolExecutor(max_workers=min(6, len(results))) as ex:
         for r in ex.map(one, results):
             out.append(r)
     return out
